@@ -1,6 +1,561 @@
-//! C15 — not built yet.
-pub const BUILT: bool = false;
-pub fn run(_rep: &mut vx::Report) {}
-pub fn worker_main(_args: &[String]) -> i32 {
-    2
+//! C15 — the document → chunks pipeline preserves content and provenance.
+//!
+//! Space (all enumerated): authored documents = every sequence of 1..=4 (quick) / 1..=5
+//! (thorough) blocks from {H1 24 pt bold, H2 18 pt bold, one-sentence paragraph 10 pt,
+//! two-sentence paragraph, list item, ruled 2×2 table, page break}, every sentence / heading /
+//! table cell carrying a unique marker word; × max_tokens {64, 8, 512} × 4 context modes ×
+//! 2 merge policies. Each document is written with `oxidize_pdf::Document`/`Page` text and
+//! graphics calls, serialised with `to_bytes`, re-opened with `PdfReader`/`PdfDocument`, and
+//! chunked with `rag_chunks_with` / `rag_chunks_with_counter` / `rag_chunks_with_source_and_config`.
+//!
+//! Authoring stays inside what the partitioner classifies without ambiguity: headings are bold
+//! *and* 1.8×/2.4× the body size (two independent title signals), body text is 10 pt regular
+//! without colons or numeric prefixes, blocks are 80 pt apart (gap > 1.5× any line height, so no two
+//! blocks are merged into one paragraph), everything lies between y=400 and y=790 (outside the
+//! 5 % header/footer zones).
+//!
+//! Oracle (from the property text):
+//!  * every authored unit (marker + its sentence) occurs exactly once in the chunks' `text`;
+//!  * `page_numbers` (and `metadata.page_span`) = the pages the chunk's markers were authored on;
+//!  * `metadata.heading_path` = the headings that govern the chunk's content in the *document*
+//!    (H1 resets, H2 nests under the last H1, page breaks do not end a section); membership
+//!    form when a chunk holds units with different governing headings; a heading's own chunk
+//!    may or may not list the heading itself; `heading_context` is the leaf of the breadcrumb;
+//!  * the Debug-serialised chunks (ids included) are byte-identical between two in-process
+//!    runs and a run in a second process (`vcheck --worker C15 run <cfg>`).
+use oxidize_pdf::parser::{PdfDocument, PdfReader};
+use oxidize_pdf::pipeline::{
+    ContextFormat, ContextMode, DocumentSource, HybridChunkConfig, MergePolicy, RagChunk, WordProxyCounter,
+};
+use oxidize_pdf::{Document, Font, Page};
+use serde_json::json;
+use std::io::{Cursor, Read, Write};
+use std::sync::Arc;
+use vx::{Ctx, Explore, Report};
+
+pub const BUILT: bool = true;
+
+const KINDS: [&str; 7] = ["H1", "H2", "para", "para2", "list", "table", "break"];
+const MAXTOK: [usize; 3] = [64, 8, 512];
+const CTX_NAMES: [&str; 4] = ["heading", "none", "contextual-labeled", "contextual-prose"];
+const N_CFG: usize = 3 * 4 * 2;
+/// Baseline-to-baseline distance between blocks. The paragraph reconstruction joins two lines when
+/// the gap (distance − height of the lower line) is ≤ 1.5 × the median line height, i.e. ≤ 36 pt
+/// for 24 pt headings; 80 − 24 = 56 keeps every pair of blocks apart.
+const STEP: f64 = 80.0;
+
+#[derive(Clone, Copy, Debug, Hash, PartialEq, Eq)]
+struct Cfg {
+    max_tokens: usize,
+    ctx: usize,
+    same_type_only: bool,
+}
+impl Cfg {
+    fn from_index(i: usize) -> Cfg {
+        Cfg { max_tokens: MAXTOK[i % 3], ctx: (i / 3) % 4, same_type_only: (i / 12) % 2 == 1 }
+    }
+    fn index(&self) -> usize {
+        MAXTOK.iter().position(|&m| m == self.max_tokens).unwrap() + 3 * self.ctx + 12 * self.same_type_only as usize
+    }
+    fn lib(&self) -> HybridChunkConfig {
+        HybridChunkConfig {
+            max_tokens: self.max_tokens,
+            merge_policy: if self.same_type_only { MergePolicy::SameTypeOnly } else { MergePolicy::AnyInlineContent },
+            context_mode: match self.ctx {
+                0 => ContextMode::Heading,
+                1 => ContextMode::None,
+                2 => ContextMode::Contextual(ContextFormat::Labeled),
+                _ => ContextMode::Contextual(ContextFormat::Prose),
+            },
+            ..Default::default()
+        }
+    }
+    fn show(&self) -> String {
+        format!(
+            "max_tokens={} context={} policy={} api={}",
+            self.max_tokens,
+            CTX_NAMES[self.ctx],
+            if self.same_type_only { "SameTypeOnly" } else { "AnyInlineContent" },
+            match self.ctx {
+                0 => "rag_chunks_with",
+                1 => "rag_chunks_with_counter(WordProxyCounter)",
+                _ => "rag_chunks_with_source_and_config",
+            }
+        )
+    }
+}
+
+// ------------------------------------------------------------------ authoring
+
+/// One authored unit of content: a heading, a sentence, a list item or a table cell.
+#[derive(Clone, Debug)]
+struct Unit {
+    marker: String,
+    text: String,
+    page: u32,
+    is_title: bool,
+    is_table: bool,
+    /// governing headings in the document (for a heading: including itself)
+    crumb: Vec<String>,
+    /// what a per-page restart of the heading stack gives (the known defect's model)
+    crumb_page: Vec<String>,
+    /// per-page restart, and headings lying between two tables of their page are not headings
+    /// (KF-C15-3 turns them into a table row)
+    crumb_fused: Vec<String>,
+}
+
+fn marker(block: usize, sub: usize) -> String {
+    format!("Mk{}{}z", (b'A' + block as u8) as char, (b'a' + sub as u8) as char)
+}
+
+fn push_heading(stack: &mut Vec<(u8, String)>, level: u8, text: &str) {
+    stack.retain(|(l, _)| *l < level);
+    stack.push((level, text.to_string()));
+}
+fn crumb_of(stack: &[(u8, String)]) -> Vec<String> {
+    stack.iter().map(|(_, t)| t.clone()).collect()
+}
+
+#[allow(clippy::too_many_arguments)]
+fn add_unit(units: &mut Vec<Unit>, page: u32, marker: String, text: String, is_title: bool, st: &[(u8, String)], sp: &[(u8, String)], sf: &[(u8, String)]) {
+    units.push(Unit { marker, text, page, is_title, is_table: false, crumb: crumb_of(st), crumb_page: crumb_of(sp), crumb_fused: crumb_of(sf) });
+}
+
+fn author(seq: &[usize]) -> (Vec<u8>, Vec<Unit>, u32) {
+    let mut doc = Document::new();
+    doc.set_title("Verification sample");
+    doc.set_author("vx");
+    let mut units: Vec<Unit> = Vec::new();
+    let mut page = Page::a4();
+    let mut page_no = 0u32;
+    let mut y = 760.0;
+    let mut stack: Vec<(u8, String)> = Vec::new();
+    let mut stack_page: Vec<(u8, String)> = Vec::new();
+    let mut stack_fused: Vec<(u8, String)> = Vec::new();
+    let x = 72.0;
+    for (b, &kind) in seq.iter().enumerate() {
+        match kind {
+            0 | 1 => {
+                let (size, level, word) = if kind == 0 { (24.0, 1u8, "Chapter") } else { (18.0, 2u8, "Section") };
+                let text = format!("{} {word}", marker(b, 0));
+                page.text().set_font(Font::HelveticaBold, size).at(x, y).write(&text).expect("write heading");
+                push_heading(&mut stack, level, &text);
+                push_heading(&mut stack_page, level, &text);
+                let table_before = seq[..b].iter().rev().take_while(|&&k| k != 6).any(|&k| k == 5);
+                let table_after = seq[b + 1..].iter().take_while(|&&k| k != 6).any(|&k| k == 5);
+                if !(table_before && table_after) {
+                    push_heading(&mut stack_fused, level, &text);
+                }
+                add_unit(&mut units, page_no, marker(b, 0), text, true, &stack, &stack_page, &stack_fused);
+            }
+            2 => {
+                let text = format!("{} plain body text here.", marker(b, 0));
+                page.text().set_font(Font::Helvetica, 10.0).at(x, y).write(&text).expect("write para");
+                add_unit(&mut units, page_no, marker(b, 0), text, false, &stack, &stack_page, &stack_fused);
+            }
+            3 => {
+                let s1 = format!("{} opens with six plain words.", marker(b, 0));
+                let s2 = format!("{} closes with six more words.", marker(b, 1));
+                let text = format!("{s1} {s2}");
+                page.text().set_font(Font::Helvetica, 10.0).at(x, y).write(&text).expect("write para2");
+                add_unit(&mut units, page_no, marker(b, 0), s1, false, &stack, &stack_page, &stack_fused);
+                add_unit(&mut units, page_no, marker(b, 1), s2, false, &stack, &stack_page, &stack_fused);
+            }
+            4 => {
+                let text = format!("- {} listed entry", marker(b, 0));
+                page.text().set_font(Font::Helvetica, 10.0).at(x, y).write(&text).expect("write list");
+                add_unit(&mut units, page_no, marker(b, 0), text, false, &stack, &stack_page, &stack_fused);
+            }
+            5 => {
+                // ruled 2×2 grid: columns at 72..222..372, rows y+14..y-4..y-22
+                let (x0, x1, x2) = (72.0, 222.0, 372.0);
+                let (t, m, bt) = (y + 14.0, y - 4.0, y - 22.0);
+                {
+                    let g = page.graphics();
+                    g.set_line_width(1.0);
+                    for yy in [t, m, bt] {
+                        g.move_to(x0, yy).line_to(x2, yy).stroke();
+                    }
+                    for xx in [x0, x1, x2] {
+                        g.move_to(xx, t).line_to(xx, bt).stroke();
+                    }
+                }
+                for (sub, (cx, cy)) in [(x0 + 6.0, y), (x1 + 6.0, y), (x0 + 6.0, y - 18.0), (x1 + 6.0, y - 18.0)].into_iter().enumerate() {
+                    let text = marker(b, sub);
+                    page.text().set_font(Font::Helvetica, 10.0).at(cx, cy).write(&text).expect("write cell");
+                    add_unit(&mut units, page_no, marker(b, sub), text, false, &stack, &stack_page, &stack_fused);
+                    units.last_mut().unwrap().is_table = true;
+                }
+            }
+            _ => {
+                doc.add_page(std::mem::replace(&mut page, Page::a4()));
+                page_no += 1;
+                y = 760.0 + STEP; // undone by the decrement below
+                stack_page.clear();
+                stack_fused.clear();
+            }
+        }
+        y -= STEP;
+    }
+    doc.add_page(page);
+    (doc.to_bytes().expect("to_bytes"), units, page_no + 1)
+}
+
+// ------------------------------------------------------------------ running the pipeline
+
+fn run_pipeline(bytes: &[u8], cfg: &Cfg) -> Result<Vec<RagChunk>, String> {
+    let reader = PdfReader::new(Cursor::new(bytes.to_vec())).map_err(|e| format!("reader: {e}"))?;
+    let doc = PdfDocument::new(reader);
+    let r = match cfg.ctx {
+        0 => doc.rag_chunks_with(cfg.lib()),
+        1 => doc.rag_chunks_with_counter(cfg.lib(), Arc::new(WordProxyCounter)),
+        _ => doc.rag_chunks_with_source_and_config(
+            DocumentSource::with_file(Some("sample.pdf".to_string()), None),
+            cfg.lib(),
+        ),
+    };
+    r.map_err(|e| format!("rag_chunks: {e}"))
+}
+
+/// Byte-exact serialisation used for the determinism comparison (ids included).
+fn serialise(chunks: &[RagChunk]) -> Vec<u8> {
+    let mut s = String::new();
+    for c in chunks {
+        s.push_str(&format!("id={} {:?}\n", c.metadata.chunk_id, c));
+    }
+    s.into_bytes()
+}
+
+/// A long-lived second process (one per explorer thread) answering `serve` requests:
+/// request = cfg index (u32 LE) + length (u32 LE) + PDF bytes; reply = status byte + length + payload.
+struct Worker {
+    child: std::process::Child,
+    stdin: std::process::ChildStdin,
+    stdout: std::process::ChildStdout,
+}
+impl Worker {
+    fn spawn() -> std::io::Result<Worker> {
+        let mut child = vx::proc::spawn_self(&["--worker", "C15", "serve"], None)?;
+        let stdin = child.stdin.take().expect("piped stdin");
+        let stdout = child.stdout.take().expect("piped stdout");
+        Ok(Worker { child, stdin, stdout })
+    }
+    fn ask(&mut self, cfg: usize, bytes: &[u8]) -> std::io::Result<(u8, Vec<u8>)> {
+        self.stdin.write_all(&(cfg as u32).to_le_bytes())?;
+        self.stdin.write_all(&(bytes.len() as u32).to_le_bytes())?;
+        self.stdin.write_all(bytes)?;
+        self.stdin.flush()?;
+        let mut head = [0u8; 5];
+        self.stdout.read_exact(&mut head)?;
+        let n = u32::from_le_bytes([head[1], head[2], head[3], head[4]]) as usize;
+        let mut out = vec![0u8; n];
+        self.stdout.read_exact(&mut out)?;
+        Ok((head[0], out))
+    }
+}
+impl Drop for Worker {
+    fn drop(&mut self) {
+        let _ = self.child.kill();
+        let _ = self.child.wait();
+    }
+}
+thread_local! {
+    static WORKER: std::cell::RefCell<Option<Worker>> = const { std::cell::RefCell::new(None) };
+}
+/// Run one case in the second process. Err = the worker died / could not be started.
+fn second_process(cfg: usize, bytes: &[u8]) -> Result<(u8, Vec<u8>), String> {
+    WORKER.with(|w| {
+        let mut w = w.borrow_mut();
+        if w.is_none() {
+            *w = Some(Worker::spawn().map_err(|e| format!("spawn: {e}"))?);
+        }
+        match w.as_mut().unwrap().ask(cfg, bytes) {
+            Ok(r) => Ok(r),
+            Err(e) => {
+                *w = None; // the next case gets a fresh worker
+                Err(format!("worker i/o: {e}"))
+            }
+        }
+    })
+}
+
+fn serve() -> i32 {
+    let mut stdin = std::io::stdin().lock();
+    let mut stdout = std::io::stdout().lock();
+    loop {
+        let mut head = [0u8; 8];
+        if stdin.read_exact(&mut head).is_err() {
+            return 0; // parent closed the pipe
+        }
+        let cfg = u32::from_le_bytes([head[0], head[1], head[2], head[3]]) as usize;
+        let n = u32::from_le_bytes([head[4], head[5], head[6], head[7]]) as usize;
+        let mut bytes = vec![0u8; n];
+        if stdin.read_exact(&mut bytes).is_err() || cfg >= N_CFG {
+            return 2;
+        }
+        let (status, payload) = match std::panic::catch_unwind(|| run_pipeline(&bytes, &Cfg::from_index(cfg))) {
+            Ok(Ok(ch)) => (0u8, serialise(&ch)),
+            Ok(Err(e)) => (3u8, format!("ERR {e}").into_bytes()),
+            Err(_) => (4u8, b"panic in worker".to_vec()),
+        };
+        if stdout.write_all(&[status]).is_err()
+            || stdout.write_all(&(payload.len() as u32).to_le_bytes()).is_err()
+            || stdout.write_all(&payload).is_err()
+            || stdout.flush().is_err()
+        {
+            return 2;
+        }
+    }
+}
+
+pub fn worker_main(args: &[String]) -> i32 {
+    match args.first().map(|s| s.as_str()) {
+        Some("serve") => serve(),
+        Some("run") => {
+            let Some(cfg) = args.get(1).and_then(|s| s.parse::<usize>().ok()).filter(|&i| i < N_CFG) else {
+                return 2;
+            };
+            let mut bytes = Vec::new();
+            if std::io::stdin().read_to_end(&mut bytes).is_err() {
+                return 2;
+            }
+            match run_pipeline(&bytes, &Cfg::from_index(cfg)) {
+                Ok(ch) => {
+                    let _ = std::io::stdout().write_all(&serialise(&ch));
+                    0
+                }
+                Err(e) => {
+                    let _ = std::io::stdout().write_all(format!("ERR {e}").as_bytes());
+                    3
+                }
+            }
+        }
+        // `probe 0251` prints the partition elements and chunks of one authored document
+        Some("probe") => {
+            let seq: Vec<usize> = args.get(1).map(|s| s.bytes().map(|b| (b - b'0') as usize).collect()).unwrap_or_default();
+            let cfg = Cfg::from_index(args.get(2).and_then(|s| s.parse().ok()).unwrap_or(0));
+            let (bytes, units, pages) = author(&seq);
+            println!("pages={pages} bytes={}", bytes.len());
+            for u in &units {
+                println!("unit {u:?}");
+            }
+            let reader = PdfReader::new(Cursor::new(bytes.clone())).expect("reader");
+            let doc = PdfDocument::new(reader);
+            for e in doc.partition().expect("partition") {
+                println!(
+                    "element {} p{} size={:?} bold={} ph={:?} path={:?} text={:?}",
+                    e.type_name(),
+                    e.page(),
+                    e.metadata().font_size,
+                    e.metadata().is_bold,
+                    e.metadata().parent_heading,
+                    e.metadata().heading_path,
+                    e.display_text()
+                );
+            }
+            match run_pipeline(&bytes, &cfg) {
+                Ok(ch) => {
+                    for c in ch {
+                        println!(
+                            "chunk {} pages={:?} over={} hc={:?} path={:?} text={:?} full={:?}",
+                            c.chunk_index, c.page_numbers, c.is_oversized, c.heading_context, c.metadata.heading_path, c.text, c.full_text
+                        );
+                    }
+                }
+                Err(e) => println!("ERR {e}"),
+            }
+            0
+        }
+        _ => 2,
+    }
+}
+
+// ------------------------------------------------------------------ the body
+
+fn norm(s: &str) -> String {
+    s.split_whitespace().collect::<Vec<_>>().join(" ")
+}
+
+fn body(c: &mut Ctx, lens: &[usize]) {
+    let len = *c.pick_from("blocks", lens);
+    let seq: Vec<usize> = (0..len).map(|_| c.choose("block", KINDS.len())).collect();
+    let cfg = Cfg {
+        max_tokens: MAXTOK[c.choose("max_tokens", 3)],
+        ctx: c.choose("context_mode", 4),
+        same_type_only: c.choose("policy", 2) == 1,
+    };
+    c.input(vx::h64(&(&seq, cfg)));
+    let show_seq = seq.iter().map(|&k| KINDS[k]).collect::<Vec<_>>().join(" ");
+
+    let (bytes, units, pages) = match vx::guard(|| author(&seq)) {
+        Ok(v) => v,
+        Err(p) => {
+            c.fail(format!("C15/authoring-panic@{}", vx::panic_site(&p)), format!("doc=[{show_seq}] {p}"));
+            return;
+        }
+    };
+
+    let run = |bytes: &[u8]| vx::guard(|| run_pipeline(bytes, &cfg));
+    let chunks = match run(&bytes) {
+        Ok(Ok(ch)) => ch,
+        Ok(Err(e)) => {
+            c.fail("C15/pipeline-error", format!("doc=[{show_seq}] config=[{}] {e}", cfg.show()));
+            return;
+        }
+        Err(p) => {
+            c.fail(format!("C15/panic@{}", vx::panic_site(&p)), format!("doc=[{show_seq}] config=[{}] {p}", cfg.show()));
+            return;
+        }
+    };
+    let show_chunks = || {
+        chunks
+            .iter()
+            .map(|ch| {
+                format!(
+                    "{{#{} pages={:?} path={:?} hc={:?} over={} types={:?} text={:?}}}",
+                    ch.chunk_index, ch.page_numbers, ch.metadata.heading_path, ch.heading_context, ch.is_oversized, ch.element_types, ch.text
+                )
+            })
+            .collect::<Vec<_>>()
+            .join(" ")
+    };
+    let detail = |what: &str| format!("{what}; doc=[{show_seq}] ({pages} page(s)) config=[{}] chunks=[{}]", cfg.show(), show_chunks());
+
+    // determinism: second in-process run, then a second process
+    let ser = serialise(&chunks);
+    match run(&bytes) {
+        Ok(Ok(again)) => {
+            let ser2 = serialise(&again);
+            if ser2 != ser {
+                c.fail("C15/two-in-process-runs-differ", detail(&format!("second run: {}", String::from_utf8_lossy(&ser2))));
+            }
+        }
+        other => c.fail("C15/second-in-process-run-failed", detail(&format!("{:?}", other.map(|r| r.map(|v| v.len()))))),
+    }
+    match second_process(cfg.index(), &bytes) {
+        Ok((0, out)) => {
+            if out != ser {
+                c.fail("C15/second-process-output-differs", detail(&format!("worker output: {}", String::from_utf8_lossy(&out))));
+            }
+        }
+        Ok((code, out)) => c.fail(
+            "C15/second-process-failed",
+            detail(&format!("worker status {code}: {}", String::from_utf8_lossy(&out[..out.len().min(300)]))),
+        ),
+        Err(e) => c.fail("C15/second-process-died", detail(&e)),
+    }
+
+    // content: every unit exactly once
+    let texts: Vec<String> = chunks.iter().map(|ch| norm(&ch.text)).collect();
+    let mut home: Vec<Option<usize>> = vec![None; units.len()];
+    for (ui, u) in units.iter().enumerate() {
+        let hits: Vec<(usize, usize)> = texts.iter().enumerate().map(|(k, t)| (k, t.matches(u.marker.as_str()).count())).filter(|(_, n)| *n > 0).collect();
+        let total: usize = hits.iter().map(|(_, n)| n).sum();
+        if total == 0 {
+            c.fail("C15/authored-text-missing-from-chunks", detail(&format!("marker {} ({:?}, page {}) is in no chunk", u.marker, u.text, u.page)));
+            continue;
+        }
+        if total > 1 {
+            // exact signature of KF-C15-3: two ruled grids with the same column positions on one
+            // page are fused into one table, and the text between them becomes a spanning row
+            // whose content is repeated once per column
+            let tables_on_page = |before: bool| {
+                units.iter().enumerate().any(|(vi, v)| v.is_table && v.page == u.page && if before { vi < ui } else { vi > ui })
+            };
+            let fused = !u.is_table
+                && total == 2
+                && hits.len() == 1
+                && tables_on_page(true)
+                && tables_on_page(false)
+                && chunks[hits[0].0].element_types == ["table"];
+            c.fail(
+                if fused { "C15/text-between-two-ruled-tables-swallowed-into-one-fused-table" } else { "C15/authored-text-duplicated-in-chunks" },
+                detail(&format!("marker {} occurs {total} times (chunk, occurrences: {:?})", u.marker, hits)),
+            );
+        }
+        home[ui] = Some(hits[0].0);
+        if !texts[hits[0].0].contains(&norm(&u.text)) {
+            c.fail("C15/authored-sentence-altered", detail(&format!("chunk {} holds marker {} but not its text {:?}", hits[0].0, u.marker, u.text)));
+        }
+    }
+
+    // provenance per chunk
+    for (k, ch) in chunks.iter().enumerate() {
+        let mine: Vec<&Unit> = units.iter().enumerate().filter(|(ui, _)| home[*ui] == Some(k)).map(|(_, u)| u).collect();
+        if mine.is_empty() {
+            c.fail("C15/chunk-without-authored-content", detail(&format!("chunk {k} contains no authored marker")));
+            continue;
+        }
+        let mut want_pages: Vec<u32> = mine.iter().map(|u| u.page).collect();
+        want_pages.sort_unstable();
+        want_pages.dedup();
+        if ch.page_numbers != want_pages {
+            c.fail("C15/page-numbers-differ-from-authored-pages", detail(&format!("chunk {k}: page_numbers={:?}, its content was authored on pages {want_pages:?}", ch.page_numbers)));
+        }
+        let want_span = Some((want_pages[0], *want_pages.last().unwrap()));
+        if ch.metadata.page_span != want_span {
+            c.fail("C15/page-span-differs-from-authored-pages", detail(&format!("chunk {k}: page_span={:?}, expected {want_span:?}", ch.metadata.page_span)));
+        }
+        // breadcrumb
+        let got = &ch.metadata.heading_path;
+        let accepts = |pick: &dyn Fn(&Unit) -> &Vec<String>| {
+            mine.iter().any(|u| {
+                let w = pick(u);
+                got == w || (u.is_title && got[..] == w[..w.len() - 1])
+            })
+        };
+        if !accepts(&|u| &u.crumb) {
+            let want: Vec<&Vec<String>> = mine.iter().map(|u| &u.crumb).collect();
+            if accepts(&|u| &u.crumb_page) {
+                c.fail(
+                    "C15/breadcrumb-restarts-at-every-page",
+                    detail(&format!("chunk {k}: heading_path={got:?} is the per-page breadcrumb; the document structure gives {want:?}")),
+                );
+            } else if got.is_empty() && ch.element_types.iter().all(|t| t == "table") && mine.iter().any(|u| u.is_table) {
+                c.fail(
+                    "C15/table-gets-no-breadcrumb-because-it-is-emitted-before-its-pages-headings",
+                    detail(&format!("chunk {k}: a table authored below heading(s) {want:?} on its page has an empty heading_path")),
+                );
+            } else if accepts(&|u| &u.crumb_fused) {
+                c.fail(
+                    "C15/text-between-two-ruled-tables-swallowed-into-one-fused-table",
+                    detail(&format!("chunk {k}: heading_path={got:?} lacks the heading(s) that were swallowed into a fused table; the document structure gives {want:?}")),
+                );
+            } else {
+                c.fail("C15/breadcrumb-is-not-the-governing-headings", detail(&format!("chunk {k}: heading_path={got:?}, expected one of {want:?}")));
+            }
+        }
+        if ch.heading_context.as_ref() != got.last() {
+            c.fail("C15/heading-context-is-not-the-breadcrumb-leaf", detail(&format!("chunk {k}: heading_context={:?} heading_path={got:?}", ch.heading_context)));
+        }
+    }
+
+    if pages > 1 || chunks.len() > 1 {
+        c.nontrivial();
+    }
+    let shape: Vec<(Vec<usize>, &Vec<u32>, &Vec<String>, bool)> = chunks
+        .iter()
+        .enumerate()
+        .map(|(k, ch)| ((0..units.len()).filter(|ui| home[*ui] == Some(k)).collect(), &ch.page_numbers, &ch.metadata.heading_path, ch.is_oversized))
+        .collect();
+    c.outcome(vx::h64(&(&seq, shape)));
+    if c.want_sample() {
+        c.sample(json!({"doc": show_seq, "pages": pages, "config": cfg.show(), "chunks": show_chunks()}));
+    }
+}
+
+pub fn run(rep: &mut Report) {
+    let thorough = rep.tier.is_thorough();
+    rep.rule(
+        "one case = one authored document (block sequence) × one chunk configuration; non-trivial when the \
+         document has more than one page or yields more than one chunk",
+    );
+    rep.assume("authoring uses only layouts whose classification does not depend on a heuristic tie (see module doc); whatever element types the partitioner assigns, the oracle is stated on markers");
+    rep.assume("serialised output = Debug rendering of every RagChunk plus its chunk_id (the harness does not enable the library's `semantic` feature, so serde JSON is not available)");
+    rep.assume("a heading's own chunk may list the heading itself in heading_path or not; chunks holding content with different governing headings are checked by membership");
+    rep.note("blocks", json!(KINDS));
+    rep.explore("docs-le4", Explore::full(), |c| body(c, &[1, 2, 3, 4]));
+    if thorough {
+        rep.explore("docs-len5", Explore::full(), |c| body(c, &[5]));
+    }
 }
